@@ -8,15 +8,6 @@ open ZV ZV.Pool
 
 /-! ### T3 — the competition rule `higherPriority` -/
 
-/-- the plasma values an accepted block can carry (vm.enoughPlasma / GetBasePlasmaForAccountBlock):
-    TotalPlasma ≤ MaxPlasmaForAccountBlock, BasePlasma ≤ base + 68·MaxDataLength or an embedded method's cost -/
-def Bounded (a : Blk) : Prop :=
-  a.total ≤ Gen.MaxPlasmaForAccountBlock ∧
-  a.base ≤ max (Gen.AccountBlockBasePlasma + Gen.ABByteDataPlasma * Gen.MaxDataLength)
-               (max Gen.PT_EmbeddedSimple (max Gen.PT_EmbeddedWWithdraw Gen.PT_EmbeddedWDoubleWithdraw))
-
-instance (a : Blk) : Decidable (Bounded a) := by unfold Bounded; infer_instance
-
 /-- with the regenerated constants every accepted block's plasma fields are below 2^32, so the uint64 products of
     `higherPriority` never wrap -/
 theorem bounded_small (a : Blk) (h : Bounded a) : Small a := by
@@ -128,9 +119,6 @@ theorem priority_zero_plasma (a b : Blk) (ha : ¬ NZ a) (hb : ¬ NZ b) :
   have hb2 : b.base = 0 := by unfold NZ at hb; omega
   rw [hp_ok_iff]; unfold prodL
   simp [ha1, ha2, hb1, hb2]
-
-/-- the competitors for one height are all of one kind: all with some plasma, or all without any -/
-def Uniform (l : List Blk) : Prop := (∀ x ∈ l, NZ x) ∨ (∀ x ∈ l, ¬ NZ x)
 
 theorem priority_trans_uniform (l : List Blk) (hs : ∀ x ∈ l, Small x) (hu : Uniform l) (a b c : Blk)
     (ha : a ∈ l) (hb : b ∈ l) (hc : c ∈ l)
